@@ -701,17 +701,22 @@ def discharge(obligations, timeout_s=20, jobs=12, solvers=('z3', 'cvc5')):
                 r.time_s = t_used
                 return ob, r
         # refinement on the full VC before the (slow) monolithic attempt
+        total_budget = max(35.0, float(timeout_s))
         for name, text in slices:
             full = (name == 'full')
+            if not full and t_used > total_budget:
+                continue
             if name == 'cegar':
-                r = smt.solve_text(text, timeout_s=min(timeout_s, 25),
+                r = smt.solve_text(text, timeout_s=min(timeout_s, 15),
                                    solvers=('cegar',), want_model=False)
                 t_used += r.time_s
                 if r.status == smt.UNSAT:
                     r.time_s = t_used
                     return ob, r
                 continue
-            budget = timeout_s if full else min(
+            if full:
+                budget = max(5.0, min(timeout_s, total_budget + 15 - t_used))
+            budget = budget if full else min(
                 timeout_s, 3 if name.startswith(('rand', 'euf')) else 6)
             r = smt.solve_text(text, timeout_s=budget, solvers=solvers,
                                want_model=full)
